@@ -1930,7 +1930,28 @@ namespace jsonschema {
             double value = instance.template as<double>();
             if (value != 0) // Exclude zero
             {
-                if (!is_multiple_of(value, static_cast<double>(value_)))
+                bool is_multiple;
+                if ((instance.is_int64() || instance.is_uint64()) && value_ >= 1 && value_ <= 9007199254740992.0 && std::floor(value_) == value_)
+                {
+                    // integer instance, integer divisor: exact, also beyond the 53 bits a double holds
+                    const uint64_t divisor = static_cast<uint64_t>(value_);
+                    uint64_t magnitude;
+                    if (instance.is_uint64())
+                    {
+                        magnitude = instance.template as<uint64_t>();
+                    }
+                    else
+                    {
+                        const int64_t n = instance.template as<int64_t>();
+                        magnitude = n < 0 ? uint64_t(0) - static_cast<uint64_t>(n) : static_cast<uint64_t>(n);
+                    }
+                    is_multiple = magnitude % divisor == 0;
+                }
+                else
+                {
+                    is_multiple = is_multiple_of(value, static_cast<double>(value_));
+                }
+                if (!is_multiple)
                 {
                     walk_state result = reporter.error(this->make_validation_message(
                         this_context.eval_path(),
